@@ -339,7 +339,7 @@ func contractServes(ct *Contract, prop string, reachable bool) bool {
 	if containsStr(ct.Props, prop) || containsStr(ct.Safety, prop) {
 		return true
 	}
-	for _, l := range [][]*Clause{ct.Requires, ct.Ensures, ct.Invs, ct.Always, ct.Steps, ct.Decrs, ct.RetReqs, ct.CallReqs} {
+	for _, l := range [][]*Clause{ct.Requires, ct.Ensures, ct.Invs, ct.Always, ct.Steps, ct.Decrs, ct.RetReqs, ct.ExitReqs, ct.CallReqs} {
 		for _, c := range l {
 			if containsStr(c.Props, prop) {
 				return true
